@@ -1,6 +1,8 @@
 //! harness <check> --tier quick|thorough --seed N      -> one JSON object on stdout
 //! harness replay <check> <args..>                      -> re-executes one case on the real code
+mod c06;
 mod cpipe;
+mod csem;
 mod gram;
 mod json;
 mod lang;
@@ -84,6 +86,10 @@ fn main() {
         let rc = match args[2].as_str() {
             "c07_strings" => strings::replay(&args[3..]),
             "pipeline" => cpipe::replay(&args[3..]),
+            "c06_display" => c06::replay_display(&args[3..]),
+            "c11_choice" | "c15_warnings" | "c08_classify" => csem::replay(&args[2], &args[3..]),
+            "c06_spans" => c06::replay_spans(&args[3..]),
+            "c06_cli" => c06::replay_cli(&args[3..]),
             other => {
                 eprintln!("unknown check {other}");
                 2
@@ -112,6 +118,12 @@ fn main() {
     let rep = match args[1].as_str() {
         "c07_strings" => strings::run(thorough),
         "pipeline" => cpipe::run(thorough, seed),
+        "c06_display" => c06::display(thorough),
+        "c11_choice" => csem::c11(thorough),
+        "c15_warnings" => csem::c15(thorough, seed),
+        "c08_classify" => csem::c08(thorough),
+        "c06_spans" => c06::spans(thorough, seed),
+        "c06_cli" => c06::cli(thorough, seed),
         other => {
             eprintln!("unknown check {other}");
             std::process::exit(2);
